@@ -167,7 +167,7 @@ def c19_run(prop, tier, seed):
 P_ASSUME = COMMON_ASSUME + ["the reference evaluator and the AST printer are trusted (guarded by the wrong-reference self-test and the mutation demos)"]
 
 SPECS = {}
-QUICK_FAMILIES = ["shape", "scc", "lat", "agg", "timeout", "ds", "par", "sugar", "macro"]
+QUICK_FAMILIES = ["shape", "scc", "lat", "agg", "timeout", "ds", "par", "sugar", "macro", "pack", "packseg"]
 SPECS["C01"] = {"run": prog_check(["shape", "scc"], "C01"), "replay": prog_replay,
                 "technique": "bounded-exhaustive enumeration of programs (compiled by the real macros) x all input databases, compared with a naive reference evaluator",
                 "assumptions": P_ASSUME + ["programs from the families F-shape and F-scc, domain {0,1}"]}
@@ -265,6 +265,18 @@ SPECS["C07"] = {"run": prog_check(["sugar"], "C07"), "replay": prog_replay,
 SPECS["C08"] = {"run": prog_check(["macro"], "C08"), "replay": prog_replay,
                 "technique": "differential: programs with in-program macros under every spelling clash between call-site variables, macro locals, parameter names and renamer-generated names vs their hand expansion (parameters substituted, macro-bound identifiers fresh per invocation), both compiled by the real macros, all inputs",
                 "assumptions": P_ASSUME + ["7 macro definitions x 16 call patterns x 7 naming schemes; the self-referential macro case is part of C15"]}
+
+
+def c09_run(prop, tier, seed):
+    reps = prog_check(["pack"], "C09")(prop, tier, seed)
+    # the same programs and variants built with the cargo feature segment-codegen
+    reps += prog_check(["packseg"], "C09")(prop, tier, seed)
+    return reps
+
+
+SPECS["C09"] = {"run": c09_run, "replay": prog_replay,
+                "technique": "differential over packaging configurations: every variant (ascent_run!, include_source at every cut, initialised / re-declared relations, timing / timeout attributes, generic struct signature, segment-codegen build) of each program is compiled by the real macros and compared with the reference on all inputs",
+                "assumptions": P_ASSUME + ["a core set of programs from F-scc, F-lat, F-agg, F-shape"]}
 
 
 def ds_check(dsname):
